@@ -116,5 +116,11 @@ func yieldHook(kind int, n int, p0, p1, p2, p3, p4, p5 uintptr) {
 	}
 	g.parked++
 	w.probe("gate-" + gateKinds[kind])
+	// how long the preemption lasts, in scheduler steps: mostly short, sometimes long enough
+	// for a whole run to end meanwhile
+	w.gateDelay = 0
+	if d := w.cfg.GateMaxDelay; d > 0 {
+		w.gateDelay = int((h >> 24) % uint64(d+1))
+	}
 	w.park(nil, "gate", gateKinds[kind], 0, nil)
 }
